@@ -10,9 +10,11 @@ TRUSTED = {
     'A4': 'A4 documented std behaviour of the transparent wrappers (vx_* functions whose body is the std call: slicing, find, trim_end_matches, split, '
           'repeat, Cow operations, mem::take, ...), vstd\'s own assume_specifications and vstd::utf8',
     'A5': 'A5 Fragment accessors are pure (each accessor returns its ghost twin)',
-    'A6': 'A6 smawk::online_column_minima(init, n, f) calls f(m, i, j) only with i < j < n, i < m.len(), and returns a back-pointer table of length n with '
-          'm[0].0 == 0 and m[k].0 < k; its minimality additionally needs total monotonicity, which nobody proves (optimality is bounded-only). '
-          'The shape is checked on the real smawk crate by the bounded contract A6.smawk.call_shape (C03, C06)',
+    'A6': 'A6 (discharged as far as shape and safety go) smawk::online_column_minima(init, n, f) calls f(m, i, j) only with i < j < n, i < m.len() and a well-shaped table m, never panics, '
+          'terminates, and returns a back-pointer table of length n with m[0].0 == 0 and m[k].0 < k: PROVED in unit U24 on the source of the smawk version Cargo.lock pins (read from the '
+          'cargo registry), for every callback — no monotonicity needed — and for n <= 2^63 + 1 (beyond that the crate\'s own `finished + rows.len()` could overflow); U2 restates it. '
+          'That the table holds column MINIMA additionally needs total monotonicity, which nobody proves (optimality is bounded-only). '
+          'The bounded contract A6.smawk.call_shape still checks the shape on the compiled crate (C03, C06)',
     'A7': 'A7 LineNumbers (RefCell memo of line numbers): PROVED in unit U23 for a fixed back-pointer table of smawk\'s shape — get terminates, never panics and returns the '
           'number of back-pointer hops (rewrite R17: RefCell<Vec> verified as a Vec behind &mut self; no two borrows overlap). In U2 the call stays abstract (any usize), because '
           'the memo is kept across the growing tables smawk passes: that a finished prefix never changes is part of A6 and checked on the real smawk crate by BEC A6.smawk.call_shape',
@@ -25,9 +27,9 @@ TRUSTED = {
           'the ANSI skipper (U3), wrap\'s shortcut (U11). Each is also an executable BEC contract on the real callee (C11/C12/C06/C10 contracts)',
     'A10': 'A10 (discharged) char-boundary safety of &line[idx..idx+len] in wrap\'s reassembly is now PROVED in U11 (the seam between valid UTF-8 pieces is a char boundary), '
            'and String::from_utf8(..).unwrap() in fill_inplace is proved not to fail in U10 (overwriting an ASCII byte by an ASCII byte keeps UTF-8 validity)',
-    'A11': 'A11 stated preconditions: wrap_optimal_fit: fragments.len() < usize::MAX; wrap_columns: columns <= isize::MAX and '
+    'A11': 'A11 stated preconditions: wrap_optimal_fit: fragments.len() <= isize::MAX (true of every slice of non-zero-sized fragments; for a zero-sized fragment type the Vec of prefix sums could not be allocated); wrap_columns: columns <= isize::MAX and '
            'display_width(middle_gap)*(columns-1) <= usize::MAX (the "result could not fit in memory" exemption made precise)',
-    'A12': 'A12 the rewrite rules R0-R17 preserve behaviour (incl. following consistent renames of bound locals, R0.follow_rename) (each application is logged in the evidence); the Python lexer/merger, Verus, Z3, Kani/CBMC, rustc',
+    'A12': 'A12 the rewrite rules R0-R19 preserve behaviour (incl. following consistent renames of bound locals, R0.follow_rename) (each application is logged in the evidence); the Python lexer/merger, Verus, Z3, Kani/CBMC, rustc',
     'A13': 'A13 BEC oracles: unicode-linebreak 0.1.5 and unicode-width 0.2.0 from the cargo registry are taken as the UAX #14 / width tables the properties refer to; '
            'in Verus (U20) unicode_linebreak::linebreaks(s) is abstract with an assumed shape (strictly increasing char-boundary positions in 1..=s.len()), '
            'checked on the real crate within scope by BEC contract A13.linebreaks.shape (C11)',
@@ -88,7 +90,7 @@ PROPS = {
                        'finders and is checked by bounded exhaustive enumeration.',
     },
     'C03': {
-        'units': ['U2', 'U23', 'U17', 'U11'], 'level': 'other', 'trusted': ['A1', 'A5', 'A6', 'A7', 'A9', 'A11', 'A12', 'A17', 'R17'], 'bec_flavors': ['default'],
+        'units': ['U2', 'U23', 'U17', 'U11', 'U24'], 'level': 'other', 'trusted': ['A1', 'A5', 'A6', 'A7', 'A9', 'A11', 'A12', 'A17', 'R17'], 'bec_flavors': ['default'],
         'proved_part': 'Verus: prefix sums are the left fold of width+whitespace; the closure passed to SMAWK returns exactly the documented cost (per-line penalty, squared gap '
                        'except on the last line, linear overflow penalty, short-last-line penalty, hyphen penalty) over uninterpreted IEEE operations; the result is an ordered partition (U2). '
                        'Last sentence ("wrap/fill ... produce, for each paragraph, such an arrangement of that paragraph\'s fragments"): the dispatch hands the words, every listed width '
@@ -99,16 +101,16 @@ PROPS = {
         'explanation': 'Mixed: the cost model and the structure are proved; minimality is bounded-only (Verus has no float theory; SMAWK\'s guarantee needs total monotonicity).',
     },
     'C04': {
-        'units': ['U1', 'U2', 'U3', 'U4', 'U5', 'U6', 'U8', 'U9', 'U10', 'U11', 'U12', 'U13', 'U14', 'U15', 'U16', 'U17', 'U18', 'U20', 'U21', 'U22', 'U23'], 'level': 'other', 'kani': [K1, K1MIN],
+        'units': ['U1', 'U2', 'U3', 'U4', 'U5', 'U6', 'U8', 'U9', 'U10', 'U11', 'U12', 'U13', 'U14', 'U15', 'U16', 'U17', 'U18', 'U20', 'U21', 'U22', 'U23', 'U24'], 'level': 'other', 'kani': [K1, K1MIN],
         'trusted': ['A1', 'A2', 'A3', 'A4', 'A5', 'A6', 'A7', 'A8', 'A9', 'A10', 'A11', 'A12', 'R15', 'R16', 'R17'],
         'proved_part': 'Verus: absence of panics (index/slice bounds incl. char boundaries in NonEmptyLines, arithmetic overflow, unwrap on None, callee preconditions) and '
                        'termination for wrap_first_fit, wrap_optimal_fit (Err only from the is_infinite test), skip_ansi_escape_sequence, display_width, NonEmptyLines::next, '
-                       'wrap_columns (A11), Word::from, break_words, indent, dedent, fill_inplace (incl. from_utf8().unwrap()), wrap, wrap_single_line, wrap_single_line_slow_path (incl. char-boundary safety of its slices), fill_slow_path, unfill (incl. the #466 class of slice panics), WordSplitter::split_points, WrapAlgorithm::wrap, strip_ansi_escape_sequences, find_words_ascii_space, find_words_unicode_break_properties, split_words and Word::break_apart (closures, R16), fill, refill, Options::new / from / the setters, LineEnding::as_str, LineNumbers::get (R17).',
+                       'wrap_columns (A11), Word::from, break_words, indent, dedent, fill_inplace (incl. from_utf8().unwrap()), wrap, wrap_single_line, wrap_single_line_slow_path (incl. char-boundary safety of its slices), fill_slow_path, unfill (incl. the #466 class of slice panics), WordSplitter::split_points, WrapAlgorithm::wrap, strip_ansi_escape_sequences, find_words_ascii_space, find_words_unicode_break_properties, split_words and Word::break_apart (closures, R16), fill, refill, Options::new / from / the setters, LineEnding::as_str, LineNumbers::get (R17), and the two functions of the smawk crate optimal-fit runs (online_column_minima, smawk_inner; U24).',
         'bounded_part': 'BEC: every public function under catch_unwind with a hang watchdog over the adversarial alphabet, widths {0,1,2,7,usize::MAX}, all option combinations, '
                         'extreme penalties; only here: "optimal-fit never reports an overflow error for usize-valued widths and penalties" (A14: float magnitudes), the inside of the dependencies '
-                        '(smawk, unicode-linebreak, unicode-width tables), the three-arm dispatch WordSeparator::find_words (Box<dyn Iterator>) and the thin constructors.',
+                        '(unicode-linebreak, unicode-width tables; smawk is verified in U24), the three-arm dispatch WordSeparator::find_words (Box<dyn Iterator>) and the thin constructors.',
         'explanation': 'Mixed, mostly proved: panic-freedom and termination are proof obligations of every Verus unit — every function the statement names, for all inputs, '
-                       'relative to the shape contracts of the three dependencies (A6, A13, A2); the overflow-error clause of optimal-fit needs float magnitudes and is bounded-only, '
+                       'relative to the shape contracts of unicode-linebreak and unicode-width (A13, A2; smawk\'s is proved in U24); the overflow-error clause of optimal-fit needs float magnitudes and is bounded-only, '
                        'as are the dependency internals and the Box<dyn Iterator> dispatch of find_words.',
     },
     'C05': {
@@ -127,9 +129,10 @@ PROPS = {
                        'the first sentence and the optimal-fit / custom-splitter cases of the second are checked by bounded exhaustive enumeration. Known finding KF5 lies in the first sentence.',
     },
     'C06': {
-        'units': ['U1', 'U2', 'U17', 'U23'], 'level': 'proof', 'trusted': ['A1', 'A5', 'A6', 'A7', 'A11', 'A12', 'A14', 'A15', 'R17'],
+        'units': ['U1', 'U2', 'U17', 'U23', 'U24'], 'level': 'proof', 'trusted': ['A1', 'A5', 'A6', 'A7', 'A9', 'A11', 'A12', 'A14', 'A15', 'R17'],
         'proved_part': 'Verus, all inputs: both algorithms return >= 1 line, the lines\' views concatenate to fragments@, each line is the subrange between consecutive breaks, '
-                       'lines are non-empty for non-empty input, exactly one empty line for empty input (optimal-fit: when it returns Ok; under the assumed SMAWK table shape A6).',
+                       'lines are non-empty for non-empty input, exactly one empty line for empty input (optimal-fit: when it returns Ok). The back-pointer table optimal-fit walks has the shape it needs for every cost function: '
+                       'smawk::online_column_minima and smawk_inner are verified in U24 on the crate\'s own source (no panic, termination, shape), so the dependency contract that used to be assumed (A6) is a proved one.',
         'bounded_part': 'BEC cross-check with real IEEE floats (negative, fractional, huge), empty width lists, pointer identity of the returned slices. '
                         'U17 additionally proves that WrapAlgorithm::wrap (the dispatch used by wrap) hands that partition on, and that the Word accessors are pure functions of the fields.',
         'explanation': 'Proof: the statement is the postcondition of wrap_first_fit and wrap_optimal_fit, discharged by Verus on the extracted functions; BEC re-checks it by execution.',
